@@ -256,7 +256,10 @@ def quiescent(ctx, d, m, cls, where):
         plain = dict(want)
         od = OrderedDict(want)
         other = CaselessDict((k.lower(), v) for k, v in want)
-        for name, o in (("dict", plain), ("OrderedDict", od), ("CaselessDict(lower keys)", other)):
+        rev = list(reversed(want))
+        for name, o in (("dict", plain), ("OrderedDict", od), ("CaselessDict(lower keys)", other),
+                        # the same content inserted in another order is still the same content
+                        ("OrderedDict(reversed)", OrderedDict(rev)), ("CaselessDict(reversed)", CaselessDict(rev)), (cls.__name__ + "(reversed)", cls(rev))):
             if not (d == o) or (d != o):
                 ctx.fail("eq-mapping", observed=(where, name, "d == m is False"), expected=True)
                 return False
